@@ -1148,7 +1148,13 @@ func Run(c *hx.Ctx) error {
 					continue
 				}
 				if p, _, stray := refLineQ(g); p != nil && !stray && p.hasTS && p.ts < 1e9 && len(p.name) > 0 {
-					return g
+					big := false
+					for _, f := range p.fields {
+						big = big || (f.v.kind == 'i' && abs53(f.v.i))
+					}
+					if !big {
+						return g
+					}
 				}
 			}
 		}
